@@ -533,3 +533,48 @@ func VerifC01_EmptyAsDefault() {
 	verifAssert("C01/empty/roundtrip-identity", e2 == nil && verifDeepEqual(u2, u))
 	verifReach("C01/empty/end")
 }
+
+type verifStructEH struct {
+	Host   string `json:"host"`
+	Port   int64  `json:"port"`
+	Socket string `json:"socket"`
+}
+
+// a treat-empty-as-default property that other properties' presence rules refer to: its empty value is absence for
+// every operation alike, so whatever Unserialize accepts also validates and serializes, and the round trip is stable
+func VerifC01_EmptyAsDefaultRules() {
+	o := NewStructMappedObjectSchema[verifStructEH]("EH", map[string]*PropertySchema{
+		"host":   NewPropertySchema(NewStringSchema(nil, nil, nil), nil, false, nil, nil, nil, nil, nil).TreatEmptyAsDefaultValue(),
+		"port":   NewPropertySchema(NewIntSchema(nil, nil, nil), nil, false, []string{"host"}, nil, nil, nil, nil).TreatEmptyAsDefaultValue(),
+		"socket": NewPropertySchema(NewStringSchema(nil, nil, nil), nil, false, nil, nil, []string{"host"}, nil, nil).TreatEmptyAsDefaultValue(),
+	})
+	raw := map[string]any{}
+	if nondetBool("hasHost") {
+		raw["host"] = nondetStringFrom("host", "", "h")
+	}
+	if nondetBool("hasPort") {
+		raw["port"] = nondetInt64("port")
+	}
+	if nondetBool("hasSocket") {
+		raw["socket"] = nondetStringFrom("socket", "", "s")
+	}
+	u, err := o.Unserialize(raw)
+	verifObserve("accepted", err == nil)
+	if err != nil {
+		verifReach("C01/emptyrules/end")
+		return
+	}
+	verifAssert("C01/emptyrules/result-validates", o.Validate(u) == nil)
+	w, e := o.Serialize(u)
+	verifAssert("C01/emptyrules/result-serializes", e == nil)
+	if e == nil {
+		u2, e2 := o.Unserialize(w)
+		verifAssert("C01/emptyrules/roundtrip-identity", e2 == nil && verifDeepEqual(u2, u))
+		if e2 == nil {
+			verifAssert("C01/emptyrules/roundtrip-validates", o.Validate(u2) == nil)
+		}
+	}
+	verifReach("C01/emptyrules/end")
+}
+
+func init() { verifRegister("VerifC01_EmptyAsDefaultRules", VerifC01_EmptyAsDefaultRules) }
